@@ -771,6 +771,8 @@ func postProcessPod(pod *corev1.Pod, injectedPod corev1.Pod, req InjectionParame
 		return err
 	}
 
+	dedupeSidecarEnv(pod)
+
 	applyMetadata(pod, injectedPod, req)
 
 	if err := reorderPod(pod, req); err != nil {
@@ -778,6 +780,34 @@ func postProcessPod(pod *corev1.Pod, injectedPod corev1.Pod, req InjectionParame
 	}
 
 	return nil
+}
+
+// dedupeSidecarEnv leaves one entry per environment variable name in the sidecar: the value of the last entry, which is
+// the one Kubernetes uses, at the position of the first. The templates append proxyMetadata after their own
+// variables, so a proxyMetadata key that the template also sets appears twice; such a list is not stable under the
+// strategic merge of a re-injection (both entries end up with the same value, which flips the effective value when
+// the template sets the variable last).
+func dedupeSidecarEnv(pod *corev1.Pod) {
+	sidecar := FindSidecar(pod)
+	if sidecar == nil {
+		return
+	}
+	last := make(map[string]int, len(sidecar.Env))
+	for i, e := range sidecar.Env {
+		last[e.Name] = i
+	}
+	if len(last) == len(sidecar.Env) {
+		return
+	}
+	out := make([]corev1.EnvVar, 0, len(last))
+	seen := make(map[string]bool, len(last))
+	for _, e := range sidecar.Env {
+		if !seen[e.Name] {
+			seen[e.Name] = true
+			out = append(out, sidecar.Env[last[e.Name]])
+		}
+	}
+	sidecar.Env = out
 }
 
 func applyMetadata(pod *corev1.Pod, injectedPodData corev1.Pod, req InjectionParameters) {
